@@ -1249,6 +1249,11 @@ class WebSocketProtocol13(WebSocketProtocol):
                 self.close(1009, "message too big after decompression")
                 self._abort()
                 return None
+            except zlib.error:
+                # The peer sent data that is not a valid deflate stream.
+                self.close(1007, "invalid compressed data")
+                self._abort()
+                return None
 
         if opcode == 0x1:
             # UTF-8 data
